@@ -236,6 +236,15 @@ fn case(t0: &mut Tape, w: &Worker) -> CaseResult {
         let b = cli::run(&w.cli, &mk_spec(Action::None));
         execs += 1;
         if b.timed_out {
+            // cli::run believed the expiry only after two longer re-runs: a run without any stop request that does not end
+            if data.len() <= 16 << 20 {
+                let sp = mk_spec(Action::None);
+                return Err(Fail::new(
+                    format!("C17:hang:NoStopRequest:{mode:?}"),
+                    "process does not end on its own (no stop condition was applied yet)",
+                    json!({"what": "hang", "mode": format!("{mode:?}"), "stdin": stdin, "perturbation": env, "input_len": data.len(), "cmd": sp.describe(), "note": "input = generated stream; regenerate from the tape"}),
+                ));
+            }
             out.labels.push("inconclusive:baseline_timeout".into());
             return Ok(out);
         }
@@ -271,19 +280,9 @@ fn case(t0: &mut Tape, w: &Worker) -> CaseResult {
     };
     let sig_part = format!("{kind:?}:{mode:?}");
     if o.timed_out {
-        // hang rule: re-execute up to 3 times with a 60 s limit (x4 under perturbation)
-        let mut s2 = spec.clone();
-        s2.timeout = Duration::from_secs(if perturb >= 2 { 240 } else { 60 });
-        let mut always = true;
-        for _ in 0..3 {
-            let o2 = cli::run(&w.cli, &s2);
-            execs += 1;
-            if !o2.timed_out {
-                always = false;
-                break;
-            }
-        }
-        if always && data.len() <= 16 << 20 {
+        // hang rule: cli::run reports an expiry only after re-executing the run twice with longer limits (4x, 12x; at
+        // least 60 s and 180 s), i.e. the process outlived its limit three times
+        if data.len() <= 16 << 20 {
             return Err(Fail::new(format!("C17:hang:{sig_part}"), "process does not end after the stop condition (deadlock?)", detail("hang")));
         }
         out.labels.push("inconclusive:timeout_not_reproduced".into());
